@@ -24,7 +24,7 @@
    Because times are non-decreasing inside a track, "minimal among heads" makes every behaviour's send sequence
    non-decreasing in scheduled time, and each track's events leave in file order (the cursor only moves forward),
    also inside one tick.  Nothing is demanded about ties between tracks or about lateness.                    *)
-EXTENDS Naturals, Integers, Sequences, FiniteSets
+EXTENDS Naturals, Integers, Sequences, FiniteSets, SequencesExt
 
 NoPort == -1000
 
@@ -96,6 +96,44 @@ Via(P, A, cur, i, p, o) ==
        IN IF \A j \in A \ {i} : Skippable(P, j, cur[j], nxt[j]) THEN <<nxt>> ELSE <<>>
 
 \* all states in which the observed send o can leave the player from state cur
+(* ---------------------------------------------------------------------------------------------------------
+   The property on a sequence of sends WITH attribution: s[k] = [i |-> track, p |-> index of the event in the
+   track, port, m, at].  Where every message of a file is distinguishable (no two events that can leave on one
+   port carry the same bytes) the attribution is determined by the observation, and no search is needed: the play is
+   judged by evaluating the clauses directly.  AttrQuad is the text of the property (the formulation MC_Player's SentOk /
+   Complete use, quadratic in the number of sends); AttrLin is the same judgement as one left-to-right pass (linear),
+   which is what makes plays of 10^5 events checkable.  MC_Player checks AttrLin = AttrQuad on every behaviour of the
+   player and on corrupted copies of it (AttrAgrees).                                                             *)
+AttrValid(P, A, x) ==
+  /\ x.i \in A /\ x.p \in 1..Len(P.tracks[x.i])
+  /\ P.tracks[x.i][x.p].m = x.m                       \* the claimed event carries the observed bytes
+  /\ Class(x.m) # "meta"                              \* no meta event ever
+  /\ x.port = PortOf(P, x.i)                          \* on the port mapped to the track
+  /\ x.at >= P.tracks[x.i][x.p].us                    \* never early
+NChan(P, i) == Cardinality({p \in 1..Len(P.tracks[i]) : Class(P.tracks[i][p].m) = "chan"})
+
+AttrQuad(P, s) ==
+  LET A == Active(P) IN
+  /\ \A k \in 1..Len(s) : AttrValid(P, A, s[k])
+  /\ \A k, l \in 1..Len(s) : k < l =>
+       /\ P.tracks[s[k].i][s[k].p].us <= P.tracks[s[l].i][s[l].p].us      \* merged by non-decreasing time
+       /\ s[k].i = s[l].i => s[k].p < s[l].p                                \* file order inside a track; at most once
+  /\ \A i \in A : \A p \in 1..Len(P.tracks[i]) :                            \* every channel message has left
+       Class(P.tracks[i][p].m) = "chan" => \E k \in 1..Len(s) : s[k].i = i /\ s[k].p = p
+
+\* one pass (FoldLeft is iterative in TLC): per track the last index sent and the number of channel messages sent, the last
+\* scheduled time, and the position of the first send that breaks a clause
+AttrStart(P) == [ok |-> TRUE, n |-> 0, us |-> 0, last |-> [i \in 1..NTracks(P) |-> 0], nchan |-> [i \in 1..NTracks(P) |-> 0]]
+AttrStep(P, A, st, x) ==
+  IF ~st.ok THEN st
+  ELSE IF ~AttrValid(P, A, x) THEN [st EXCEPT !.ok = FALSE, !.n = @ + 1]
+  ELSE LET us == P.tracks[x.i][x.p].us IN
+       IF us < st.us \/ x.p <= st.last[x.i] THEN [st EXCEPT !.ok = FALSE, !.n = @ + 1]
+       ELSE [st EXCEPT !.n = @ + 1, !.us = us, !.last[x.i] = x.p,
+                       !.nchan[x.i] = @ + (IF Class(x.m) = "chan" THEN 1 ELSE 0)]
+AttrRun(P, s) == LET A == Active(P) IN FoldLeft(LAMBDA st, x : AttrStep(P, A, st, x), AttrStart(P), s)
+AttrLin(P, s) == LET r == AttrRun(P, s) IN r.ok /\ \A i \in Active(P) : r.nchan[i] = NChan(P, i)
+
 Succ(P, A, cur, o) ==
   LET cand == UNION {{<<i, p>> : p \in {q \in cur[i]..Len(P.tracks[i]) : P.tracks[i][q].m = o.m}} : i \in A}
   IN UNION {LET v == Via(P, A, cur, ip[1], ip[2], o) IN IF v = <<>> THEN {} ELSE {v[1]} : ip \in cand}
